@@ -7,6 +7,7 @@ import (
 	stdbits "github.com/consensys/gnark/std/math/bits"
 	"math/big"
 	"math/rand"
+	"runtime/debug"
 	"strings"
 	"sync"
 
@@ -308,7 +309,7 @@ func c06ProtocolReal(c RCCase, resp *drv.Response, rng *rand.Rand) {
 	}
 	// the operand may be a compile-time constant of the circuit: the same ranges are enforced (a builder knows the value of a constant,
 	// the test engine and the proxy do not, so this only exists on compiled systems)
-	if len(c.Widths) > 0 {
+	if len(c.Widths) > 0 && !(c.Env && c.Pad > 0) { // (bit decomposition of a padded circuit is millions of constraints per compilation: constants under that mechanism are decided on the unpadded scenarios)
 		mkc := func(consts []*big.Int) *rcCircuit {
 			cc := mk(inRange, pad)
 			cc.Consts = consts
@@ -344,6 +345,8 @@ func c06ProtocolReal(c RCCase, resp *drv.Response, rng *rand.Rand) {
 		}
 	}
 	resp.Sample(map[string]any{"case": c.key(), "sys": sys, "model": c.Outcome, "constraints": ccs.GetNbConstraints()})
+	ccs = nil
+	debug.FreeOSMemory() // compiled systems of padded scenarios are large: give the memory back before the next scenario
 }
 
 func errHead(err error) string {
